@@ -90,8 +90,9 @@ func shortTextHint(text []rune, maxWidth, fontSize pr.Float) []rune {
 		if spaceIndex := indexRune(text, ' '); spaceIndex != -1 {
 			cut = spaceIndex + 2 // index + space + one letter
 		}
-	} else {
-		cut = int(maxWidth / fontSize * 2.5)
+	} else if c := maxWidth / fontSize * 2.5; c < pr.Float(cut) {
+		// compare as floats : a huge width overflows int
+		cut = int(c)
 	}
 
 	if cut > len(text) {
